@@ -977,8 +977,10 @@ class FastSyncGroup(SyncGroupBase, XDP):
     """A :class:`SyncGroup` where all devices are EBPF programs"""
     license = "GPL"
 
-    properties = ArrayMap()
-    wkc_errors = properties.globalVar('I')
+    # device variables are declared in this map: it needs to be
+    # the same one for all kinds of groups that keep them in a map
+    properties = ProcessSyncGroup.properties
+    wkc_errors = ProcessSyncGroup.wkc_errors
 
     def __init__(self, ec, devices, **kwargs):
         super().__init__(ec, devices, subprograms=devices, **kwargs)
